@@ -1,7 +1,21 @@
 import Batteries.Data.List.Basic
 import TTV.Model.Matchers
 import TTV.Spec.C06
-/-! # C06 — matcher verdicts obey their declared semantics (theorems: see below) -/
+/-! # C06 — matcher verdicts obey their declared semantics compositionally
+
+Property theorems (kept apart from the model `TTV.Matchers` and the specification `TTV.Spec.C06`).
+All statements are for **every** matcher expression (any depth and fan-out, arbitrary verdict tables for the
+opaque leaves), every value and both set-iteration orders.
+
+* `C06_sound_partial`          : in the documented domain `match()` returns the documented verdict — outside finding D5
+* `C06_sound_setwiseFree`      : the same at full strength for every expression without `MatchesSetwise`
+* `C06_deterministic_partial`  : the verdict does not depend on the set-iteration order — outside D5
+* `C06_pure_deterministic`     : same object, same verdict; nothing is modified (by construction of the model)
+* `C06_spec_not/all/any/allMatch/transparent`, `C06_sameMembers_perm`, `C06_spec_setwise_assignment` :
+  what the specification says, as plain propositions (negation, ∧, ∨, ∀, ∃, `List.Perm`, ∃ one-to-one assignment)
+* `C06_setwise_witness`        : the model exhibits D5 (`decide`)
+* `holds_model_partial`        : the executable spec holds of the model's trace outside the finding class
+-/
 namespace TTV.Props.C06
 open TTV.Matchers TTV.Spec.C06
 
@@ -870,6 +884,46 @@ theorem C06_spec_allMatch (m : M) (v : V) (xs : List V) (hv : pyIter v = some xs
 theorem C06_spec_transparent (m : M) (v w : V) (f : PreFn) (a : Bool) (hf : applyPre f v = .ok w) :
     spec (.annotate m) v = spec m v ∧ spec (.after f a m) v = spec m w := by
   simp [spec, hf]
+
+theorem specZip_mem : ∀ {ms : List M} {xs : List V} {r : Option Verdict},
+    r ∈ specZip ms (xs.map some) ↔ ∃ p ∈ ms.zip xs, r = spec p.1 p.2
+  | [], xs, r => by simp [specZip]
+  | _ :: _, [], r => by simp [specZip]
+  | m :: ms, x :: xs, r => by simp [specZip, specZip_mem (ms := ms) (xs := xs)]
+
+/-- `MatchesListwise` is positional with equal length. -/
+theorem C06_spec_listwise (fo : Bool) (ms : List M) (v : V) (xs : List V) (hv : pyIter v = some xs)
+    (hparts : ∀ p ∈ ms.zip xs, ∃ b, spec p.1 p.2 = some (.ofBool b)) :
+    ∃ b, spec (.listwise fo ms) v = some (.ofBool b) ∧
+      (b = true ↔ xs.length = ms.length ∧ ∀ p ∈ ms.zip xs, spec p.1 p.2 = some .match) := by
+  obtain ⟨bs, hbs, hall, _⟩ := bools_iff (rs := specZip ms (xs.map some)) (by
+    intro r hr
+    obtain ⟨p, hp, rfl⟩ := specZip_mem.mp hr
+    exact hparts p hp)
+  refine ⟨xs.length == ms.length && bs.all id, by simp [spec, hv, hbs], ?_⟩
+  rw [Bool.and_eq_true, hall, beq_iff_eq]
+  constructor
+  · rintro ⟨h1, h2⟩; exact ⟨h1, fun p hp => h2 _ (specZip_mem.mpr ⟨p, hp, rfl⟩)⟩
+  · rintro ⟨h1, h2⟩
+    refine ⟨h1, fun r hr => ?_⟩
+    obtain ⟨p, hp, rfl⟩ := specZip_mem.mp hr
+    exact h2 p hp
+
+/-- `MatchesDict` / `ContainsDict` / `ContainedByDict`: exact / super / sub key sets. -/
+theorem C06_spec_dict_keys (kind : DictKind) (ks oks : List Nat) :
+    keyCond kind ks oks = true ↔
+      (match kind with
+       | .exact => (∀ k ∈ ks, k ∈ oks) ∧ (∀ k ∈ oks, k ∈ ks)
+       | .contains => ∀ k ∈ ks, k ∈ oks
+       | .containedBy => ∀ k ∈ oks, k ∈ ks) := by
+  cases kind <;> simp [keyCond, subsetB]
+
+/-- … with per-key matchers on the common keys. -/
+theorem C06_spec_dict (kind : DictKind) (ks : List Nat) (ms : List M) (oks : List Nat) (ovs : List V)
+    (bs : List Bool) (hlen : ks.length = ms.length)
+    (hparts : bools (specZip ms (ks.map fun k => lookupKey k oks ovs)) = some bs) :
+    spec (.dict kind ks ms) (.dict oks ovs) = some (.ofBool (keyCond kind ks oks && bs.all id)) := by
+  simp [spec, hlen, hparts]
 
 /-- `SameMembers`: the matchee is a permutation of the expected list (same members, same repetitions). -/
 theorem C06_sameMembers_perm (sel : Bool) (e xs : List V) :
